@@ -28,6 +28,14 @@ def analysis(params, workdir: Path, models_in=None, model_order=None):
                                optional=("ExpMass",), signal=4.0, letter_peptides=True, n_peptides=params["n_pep"],
                                integer_scores=False)
     workdir.mkdir(parents=True, exist_ok=True)
+    # two feature columns carry a missing value, so that the feature-dropping path of read_pin runs
+    # (its result must not depend on set/hash iteration order)
+    df["lnrsp"] = [r.gauss(0, 1) for _ in range(len(df))]
+    df["mass_err"] = [r.gauss(0, 1) for _ in range(len(df))]
+    df.loc[r.randrange(len(df)), "lnrsp"] = float("nan")
+    df.loc[r.randrange(len(df)), "mass_err"] = float("nan")
+    cols = [c for c in df.columns if c not in ("Peptide", "Proteins")] + ["Peptide", "Proteins"]
+    df = df[cols]
     p = mkdata.write_table(df, workdir / f"in.{params['fmt']}")
     fasta = mkdata.make_fasta(params["n_pep"], max(3, params["n_pep"] // 4), workdir / "db.fasta")
     digest = {}
@@ -36,6 +44,7 @@ def analysis(params, workdir: Path, models_in=None, model_order=None):
     ds = mkdata.read_dataset(p, max_workers=params["workers"])
     hashes = None
     folds = mkdata.read_dataset(p)._split(params["folds"], np.random.default_rng(params["seed"]))
+    digest["feature_columns"] = list(ds.feature_columns)
     digest["folds"] = sha(json.dumps([list(map(int, f)) for f in folds]).encode())
     if models_in is None:
         model = mokapot.PercolatorModel(train_fdr=0.25, max_iter=2, rng=params["seed"], override=True)
